@@ -155,3 +155,17 @@ package memberlist
 //@   at exit: assert failure_means_unchanged: result != nil ==> !wrote && same(m.store, old(m).store)
 //@   at exit: assert one_write: result == nil && wrote ==> in(key, m.store) && m.store[key].Version == get(old(m).store, key).Version + 1
 //@   loop 0 invariant !wrote && same(m.store, old(m).store) && !isnil(m.store)
+//@
+//@ # ---- C04 / C06: garbage collection of the store drops only whole keys that were deleted (the key-level deletion flag);
+//@ # a live key - ring descriptors with their tombstones are live keys - is never dropped, nor is any value changed
+//@ func KV.cleanupObsoleteEntries
+//@   property C04 C06
+//@   requires !isnil(m.store)
+//@   ensures  kept_unchanged: forall k string :: in(k, m.store) ==> in(k, old(m).store) && same(m.store[k], old(m).store[k])
+//@   ensures  only_deleted_keys: forall k string :: in(k, old(m).store) && !in(k, m.store) ==> old(m).store[k].Deleted
+//@   loop 0 invariant !isnil(m.store) && (forall k string :: in(k, m.store) ==> in(k, old(m).store) && same(m.store[k], old(m).store[k]))
+//@   loop 0 invariant forall k string :: in(k, old(m).store) && !in(k, m.store) ==> old(m).store[k].Deleted
+//@ func KV.stopKeyWorkers
+//@   property C04 C06
+//@   ensures same(m.store, old(m).store)
+//@   loop 0 invariant same(m.store, old(m).store)
